@@ -380,3 +380,22 @@ def make_back(spec, perm):
             out[el] = vals
         return out
     return back
+
+def pattern_chain_spec(rng, dom=None):
+    """S -> init(a) X(a,b) final(b);  X(a,b) -> eq(a,b) | T(a,c) X(c,b)  with eq the identity
+    matrix (a diagonal PatternedTensor when built with patterned=True) and T dense: the sparsity
+    pattern of X's value changes from diagonal to dense during the iteration."""
+    d = dom or rng.randint(2, 3)
+    one, zero = Fraction(1), Fraction(0)
+    elabels = [dict(term=False, type=[]), dict(term=False, type=[0, 0]),
+               dict(term=True, type=[0]), dict(term=True, type=[0]), dict(term=True, type=[0, 0]), dict(term=True, type=[0, 0])]
+    INIT, FINAL, EQ, T = 2, 3, 4, 5
+    rules = [dict(lhs=0, nodes=[0, 0], edges=[(INIT, [0]), (1, [0, 1]), (FINAL, [1])], ext=[]),
+             dict(lhs=1, nodes=[0, 0], edges=[(EQ, [0, 1])], ext=[0, 1]),
+             dict(lhs=1, nodes=[0, 0, 0], edges=[(T, [0, 2]), (1, [2, 1])], ext=[0, 1])]
+    if rng.random() < 0.5: rules[1], rules[2] = rules[2], rules[1]
+    vals = [Fraction(1, 4), Fraction(1, 2), Fraction(1), zero]
+    weights = {INIT: [rng.choice(vals[:3]) for _ in range(d)], FINAL: [rng.choice(vals[:3]) for _ in range(d)],
+               EQ: [[one if i == j else zero for j in range(d)] for i in range(d)],
+               T: [[rng.choice(vals) for _ in range(d)] for _ in range(d)]}
+    return dict(nlabels=[d], elabels=elabels, start=0, rules=rules, weights=weights, features=["pattern_chain"], recursive=True)
